@@ -130,6 +130,8 @@ func main() {
 		modeC01()
 	case "c02":
 		modeC02()
+	case "c02r":
+		modeC02R()
 	case "c05":
 		modeC05()
 	case "c04":
@@ -183,6 +185,19 @@ func replayMode() {
 		res.Eval()
 		fmt.Fprintf(os.Stderr, "replay c17 %s: outcome=%s err=%v wire=%v\n", cc, x.Outcome, c17cur.sendErr, c17cur.wire)
 		checkC17(cc, x)
+		return
+	}
+	if rp.Mode == "c02r" {
+		var a AbortCase
+		json.Unmarshal([]byte(rp.Extra), &a)
+		x, err := vrt.Replay(c02rCfg(), rp.Choices, func() { runAbort(a) })
+		if err != nil {
+			res.InfraError("%v", err)
+			return
+		}
+		res.Eval()
+		fmt.Fprintf(os.Stderr, "replay c02r %s: outcome=%s %s returned=%v err=%v\n", a, x.Outcome, x.Detail, c02rCur.returned, c02rCur.err)
+		checkAbort(a, x)
 		return
 	}
 	if rp.Mode == "c15" {
